@@ -1,5 +1,5 @@
 (** C01 — the theorems that Properties/C01.v states, per implementation. *)
-From Algo.C01 Require Import Model Spec SpecFacts ProofsQuery ProofsRun ProofsBST ProofsAVL.
+From Algo.C01 Require Import Model Spec SpecFacts ProofsQuery ProofsRun ProofsBST ProofsAVL ProofsRB.
 From Coq Require Import Lia Permutation.
 Open Scope Z_scope.
 Arguments inorder {K V} n : simpl never.
@@ -92,5 +92,16 @@ Section All.
     destruct (build_ok cmp AVL _ _ (avl_refines cmp TO) h (forallb_true h)) as [t [E1 [E2 [_ I]]]].
     exists t. auto.
   Qed.
+
+  (** red-black, histories whose mutators are Put and DeleteAll *)
+  Theorem rb_run_ok_put (ops : list (op K V)) :
+    forallb abstract_op ops = true -> forallb (op_allowed put_only) ops = true ->
+    run cmp eqv RB ops = map Ok (spec_run cmp eqv ops).
+  Proof. intros HA HO. eapply run_ok; eauto using rb_refines_put. Qed.
+
+  Theorem rb_build_inv_put (h : list (mut K V)) :
+    forallb put_only h = true ->
+    exists t, build cmp RB h = Ok t /\ inorder t = s_build cmp h /\ rb_ok cmp t.
+  Proof. intros HA. exact (build_ok cmp RB _ _ (rb_refines_put cmp TO) h HA). Qed.
 
 End All.
